@@ -8,13 +8,13 @@ Property text: "each delivered record is acknowledged to the broker at most once
 Acknowledgement batches sent for a partition are in ascending, non-overlapping offset order" (all mixes of
 pending user acknowledgements and gap ranges for a partition).
 
-FULL STATEMENT of the range clause (what the property asks):
+The range clause is proved at full strength (`build_spec`):
     ∀ es gs, wfInput es gs → specBuild es gs (buildAckRanges es gs).1 (buildAckRanges es gs).2
-i.e. ascending ∧ every offset once with its type ∧ renew flag. Its `ascending` conjunct is FALSE of the
-current code (`build_ascending_false`): user-entry ranges are emitted first, gap ranges afterwards. What is
-proved instead carries the suffix `_partial`; the coverage and flag conjuncts are proved in full.
-The protocol half of C12 (redelivery, auto-accept at poll, release on close, FlushAcks ordering) is not
-covered by these theorems. -/
+i.e. ascending and non-overlapping ∧ every offset once with its type ∧ renew flag. Before repair 5958f14 its
+`ascending` conjunct was false of the code (user-entry ranges were emitted first, gap ranges afterwards:
+entries {10,11 accept} + gap [5,9] gave [10,11],[5,9]); the model is re-transcribed from the repaired loop and
+the old witness is kept as a regression `example` and in corpus/C12.
+-/
 namespace Props.C12
 open Model.C12 Spec.C12 Proof.C12
 
@@ -188,7 +188,7 @@ theorem build_renew_flag (es : List Entry) (gs : List Range) (hwf : wfInput es g
     renewOK (buildAckRanges es gs).1 (buildAckRanges es gs).2 = true := by
   have h := (wfInput_iff es gs).1 hwf
   simp only [renewOK, beq_iff_eq, build_fst, build_snd, List.any_reverse]
-  rw [any_ty_foldl _ _ (fun t => t == 4), any_ty_foldl _ _ (fun t => t == 4)]
+  rw [any_ty_foldl _ _ (fun t => t == 4), (interleave_perm _ _).any_eq]
   have hg : (sortGaps gs).any (fun x => x.ty == 4) = false := by
     rw [List.any_eq_false]
     intro g hg
@@ -198,90 +198,41 @@ theorem build_renew_flag (es : List Entry) (gs : List Range) (hwf : wfInput es g
 
 /-! ### buildAckRanges: ordering -/
 
-/-- **The ordering clause is false of the current code.** Pending accepts for offsets 10 and 11 and a gap
-range [5,9] (a well-formed input): the batches come out as [10,11] then [5,9]. -/
-theorem build_witness :
-    (buildAckRanges [⟨10, 1, 0, 1⟩, ⟨11, 1, 0, 1⟩] [⟨5, 9, 0, 1, 0⟩]).1 = [⟨10, 11, 0, 1, 1⟩, ⟨5, 9, 0, 1, 0⟩] := by
+/-- **Ordering, full strength.** For every well-formed input the batch list is ascending and
+non-overlapping (every range `first ≤ last`, every range ends strictly before every later one starts). -/
+theorem build_ascending (es : List Entry) (gs : List Range) (hwf : wfInput es gs = true) :
+    ascending (buildAckRanges es gs).1 = true := by
+  have h := (wfInput_iff es gs).1 hwf
+  have hsg := sortGaps_ascList gs (fun g hg => (h.gaps g hg).2.1) h.disj
+  have hL : AscList (interleave (em es) (sortGaps gs)) :=
+    interleave_ascList _ _ (em_pairwise h) hsg (fun e he g hg => by
+      obtain ⟨hee, hel⟩ := em_mem h e he
+      exact h.apart e hee hel g ((sortGaps_perm gs).mem_iff.1 hg))
+  have hall : AscRev ((interleave (em es) (sortGaps gs)).foldl coalesceRev []) :=
+    ascRev_foldl _ [] (by simp [AscRev]) hL (by simp)
+  rw [build_fst]
+  exact (ascending_iff _).2 ((ascList_reverse _).2 hall)
+
+/-- **The property's range clause, in the executable form the driver evaluates on the real code:**
+ascending and non-overlapping, each offset exactly once with its ack type (gaps as gaps), renew flag exact. -/
+theorem build_spec (es : List Entry) (gs : List Range) (hwf : wfInput es gs = true) :
+    specBuild es gs (buildAckRanges es gs).1 (buildAckRanges es gs).2 = true := by
+  simp only [specBuild, Bool.and_eq_true]
+  exact ⟨⟨build_ascending es gs hwf, build_coverageOK es gs hwf⟩, build_renew_flag es gs hwf⟩
+
+/-- Regression (finding ackranges-gaps-after-entries, repaired by 5958f14): pending accepts for offsets 10
+and 11 with a gap range [5,9] below them used to give [10,11],[5,9]. -/
+example : (buildAckRanges [⟨10, 1, 0, 1⟩, ⟨11, 1, 0, 1⟩] [⟨5, 9, 0, 1, 0⟩]).1 = [⟨5, 9, 0, 1, 0⟩, ⟨10, 11, 0, 1, 1⟩] := by
   have h1 : sortEntries [⟨10, 1, 0, 1⟩, ⟨11, 1, 0, 1⟩] = [⟨10, 1, 0, 1⟩, ⟨11, 1, 0, 1⟩] :=
     List.mergeSort_of_pairwise (by simp)
   have h2 : sortGaps [⟨5, 9, 0, 1, 0⟩] = [⟨5, 9, 0, 1, 0⟩] := List.mergeSort_of_pairwise (by simp)
   simp only [buildAckRanges, h1, h2]
   decide
 
-theorem build_ascending_false :
-    ¬ ∀ (es : List Entry) (gs : List Range), wfInput es gs = true → ascending (buildAckRanges es gs).1 = true := by
-  intro h
-  have := h [⟨10, 1, 0, 1⟩, ⟨11, 1, 0, 1⟩] [⟨5, 9, 0, 1, 0⟩] (by decide)
-  rw [build_witness] at this
-  revert this
-  decide
-
-/-- What does hold for every well-formed input: the batch list is two ascending, non-overlapping runs
-(the user-entry ranges, then the gap ranges). -/
-theorem build_two_runs_partial (es : List Entry) (gs : List Range) (hwf : wfInput es gs = true) :
-    ∃ U G, (buildAckRanges es gs).1 = U ++ G ∧ ascending U = true ∧ ascending G = true := by
-  have h := (wfInput_iff es gs).1 hwf
-  have hsing : AscList ((em es).map single) :=
-    ⟨List.pairwise_map.2 ((em_pairwise h).imp (fun {a b} hab => by simpa [single] using hab)), wf_single _⟩
-  have hU0 : AscRev (((em es).map single).foldl coalesceRev []) :=
-    ascRev_foldl _ [] (by simp [AscRev]) hsing (by simp)
-  have hsg := sortGaps_ascList gs (fun g hg => (h.gaps g hg).2.1) h.disj
-  obtain ⟨G, U, heq, hG, hU⟩ := two_runs_foldl (sortGaps gs) _ hU0 hsg
-  refine ⟨U.reverse, G.reverse, ?_, ?_, ?_⟩
-  · rw [build_fst, heq, List.reverse_append]
-  · exact (ascending_iff _).2 ((ascList_reverse U).2 hU)
-  · exact (ascending_iff _).2 ((ascList_reverse G).2 hG)
-
-/-- … in the executable form the driver uses to classify a failing output. -/
-theorem build_twoRuns (es : List Entry) (gs : List Range) (hwf : wfInput es gs = true) :
-    twoRuns (buildAckRanges es gs).1 = true := by
-  obtain ⟨U, G, heq, hU, hG⟩ := build_two_runs_partial es gs hwf
-  simp only [twoRuns, List.any_eq_true, List.mem_range, Bool.and_eq_true]
-  refine ⟨U.length, by rw [heq]; simp; omega, ?_, ?_⟩
-  · rw [heq, List.take_left' rfl]; exact hU
-  · rw [heq, List.drop_left' rfl]; exact hG
-
-/-- The full ordering holds whenever no gap range starts below a decided user entry. -/
-theorem build_ascending_partial (es : List Entry) (gs : List Range) (hwf : wfInput es gs = true)
-    (hno : gapBelowEntry es gs = false) : ascending (buildAckRanges es gs).1 = true := by
-  have h := (wfInput_iff es gs).1 hwf
-  have hlt : ∀ e ∈ es, e.status ≠ 0 → ∀ g ∈ gs, e.offset < g.first := by
-    intro e he hl g hg
-    simp only [gapBelowEntry, List.any_eq_false, Bool.and_eq_true, bne_iff_ne, ne_eq, List.any_eq_true,
-      decide_eq_true_eq, not_and, not_exists] at hno
-    have h1 := hno e he hl g hg
-    have h2 := h.apart e he hl g hg
-    have h3 := (h.gaps g hg).2.1
-    omega
-  have hsing : AscList ((em es).map single) :=
-    ⟨List.pairwise_map.2 ((em_pairwise h).imp (fun {a b} hab => by simpa [single] using hab)), wf_single _⟩
-  have hU0 : AscRev (((em es).map single).foldl coalesceRev []) :=
-    ascRev_foldl _ [] (by simp [AscRev]) hsing (by simp)
-  have hsg := sortGaps_ascList gs (fun g hg => (h.gaps g hg).2.1) h.disj
-  have hall : AscRev ((sortGaps gs).foldl coalesceRev (((em es).map single).foldl coalesceRev [])) := by
-    refine ascRev_foldl _ _ hU0 hsg ?_
-    intro x hx g hg
-    rcases last_mem_foldl _ _ x hx with ⟨y, hy, _⟩ | ⟨r, hr, hxr⟩
-    · simp at hy
-    · obtain ⟨e, he, rfl⟩ := List.mem_map.1 hr
-      obtain ⟨hee, hel⟩ := em_mem h e he
-      have := hlt e hee hel g ((sortGaps_perm gs).mem_iff.1 hg)
-      simp only [single] at hxr
-      omega
-  rw [build_fst]
-  exact (ascending_iff _).2 ((ascList_reverse _).2 hall)
-
-/-- The whole executable Spec holds on that class of inputs. -/
-theorem build_spec_partial (es : List Entry) (gs : List Range) (hwf : wfInput es gs = true)
-    (hno : gapBelowEntry es gs = false) :
-    specBuild es gs (buildAckRanges es gs).1 (buildAckRanges es gs).2 = true := by
-  simp only [specBuild, Bool.and_eq_true]
-  exact ⟨⟨build_ascending_partial es gs hwf hno, build_coverageOK es gs hwf⟩, build_renew_flag es gs hwf⟩
-
-/-- Non-vacuity: out-of-order acks with a renew-then-accept duplicate, an undecided entry, a release run and a
-gap above them: well-formed, no gap below an entry, and the output is the ascending merged list. -/
-example : wfInput [⟨7, 2, 0, 1⟩, ⟨5, 1, 0, 1⟩, ⟨6, 1, 0, 1⟩, ⟨5, 1, 0, 1⟩, ⟨8, 0, 0, 1⟩] [⟨9, 12, 0, 1, 0⟩] = true ∧
-    gapBelowEntry [⟨7, 2, 0, 1⟩, ⟨5, 1, 0, 1⟩, ⟨6, 1, 0, 1⟩, ⟨5, 1, 0, 1⟩, ⟨8, 0, 0, 1⟩] [⟨9, 12, 0, 1, 0⟩] = false := by
+/-- Non-vacuity: out-of-order acks with a renew-then-accept duplicate, an undecided entry, a release run, a gap
+between the entries and one above them: a well-formed input with a gap below an entry. -/
+example : wfInput [⟨7, 2, 0, 1⟩, ⟨5, 1, 0, 1⟩, ⟨3, 1, 0, 1⟩, ⟨5, 1, 0, 1⟩, ⟨8, 0, 0, 1⟩] [⟨9, 12, 0, 1, 0⟩, ⟨4, 4, 0, 1, 0⟩] = true ∧
+    gapBelowEntry [⟨7, 2, 0, 1⟩, ⟨5, 1, 0, 1⟩, ⟨3, 1, 0, 1⟩, ⟨5, 1, 0, 1⟩, ⟨8, 0, 0, 1⟩] [⟨9, 12, 0, 1, 0⟩, ⟨4, 4, 0, 1, 0⟩] = true := by
   decide
 
 /-! ### filterStaleEntries -/
